@@ -9,11 +9,16 @@ package pipeline
 
 import (
 	"encoding/json"
+	"fmt"
 	"os"
+	"strings"
 	"sync"
 	"sync/atomic"
 	"testing"
 	"time"
+
+	"github.com/prometheus/client_golang/prometheus"
+	"go.uber.org/zap"
 )
 
 type c05Res struct {
@@ -127,6 +132,109 @@ func TestVerifC05Pools(t *testing.T) {
 				}
 				all = append(all, c05Sizes(kind, size))
 			}
+		}
+	}
+	b, _ := json.Marshal(all)
+	if err := os.WriteFile(out, b, 0o644); err != nil {
+		t.Fatal(err)
+	}
+}
+
+// ---------------------------------------------------------------- every way In can refuse a record
+// A record that In refuses holds no event afterwards, whichever of its exits it takes: oversize without cut-off, wrong CRI
+// format, offset below the committed offset of its stream (antispam on, CRI), banned by the antispam, not decodable, refused
+// by the input's own PassEvent.  After each series the pool's in-use count is zero and the pool still hands out `capacity` events.
+type c05RefInput struct{ refuse bool }
+
+func (i *c05RefInput) Start(AnyConfig, *InputPluginParams) {}
+func (i *c05RefInput) Stop()                               {}
+func (i *c05RefInput) Commit(*Event)                       {}
+func (i *c05RefInput) PassEvent(*Event) bool               { return !i.refuse }
+
+type c05RefOutput struct{ ctl OutputPluginController }
+
+func (o *c05RefOutput) Start(_ AnyConfig, p *OutputPluginParams) { o.ctl = p.Controller }
+func (o *c05RefOutput) Stop()                                    {}
+func (o *c05RefOutput) Out(e *Event)                             { o.ctl.Commit(e) }
+
+type c05RefRes struct {
+	Family   string `json:"family"`
+	Pool     string `json:"pool"`
+	Exit     string `json:"exit"`
+	Refused  int    `json:"refused"`
+	Accepted int    `json:"accepted"`
+	InUseEnd int64  `json:"inuse_end"`
+	Blocked  bool   `json:"blocked"`
+}
+
+func c05Refusals(pool PoolType, exit string, n int) c05RefRes {
+	res := c05RefRes{Family: "in_refusals", Pool: string(pool), Exit: exit}
+	settings := &Settings{Decoder: "json", Capacity: 2, MaintenanceInterval: time.Hour, EventTimeout: time.Minute,
+		Antispam: AntispamSettings{Threshold: -1, MaintenanceInterval: time.Hour}, AvgEventSize: 128, StreamField: "stream",
+		Pool: pool, Metric: &MetricSettings{HoldDuration: time.Hour}}
+	in := &c05RefInput{}
+	var data []byte
+	offs := NewOffsets(10, nil)
+	switch exit {
+	case "oversize":
+		settings.MaxEventSize = 16
+		data = []byte(`{"a":"` + strings.Repeat("x", 64) + `"}` + "\n")
+	case "wrong_cri":
+		settings.Decoder = "cri"
+		data = []byte("not a cri line\n")
+	case "below_stream_offset":
+		settings.Decoder = "cri"
+		settings.Antispam.Threshold = 1000000
+		data = []byte("2016-10-06T00:17:09.669794202Z stdout F a line\n")
+		offs = NewOffsets(10, SliceFromMap(map[StreamName]int64{"stdout": 100}))
+	case "banned":
+		settings.Antispam.Threshold = 1
+		data = []byte(`{"a":1}` + "\n")
+	case "undecodable":
+		data = []byte(`{"a":1 BROKEN` + "\n")
+	case "pass_event":
+		in.refuse = true
+		data = []byte(`{"a":1}` + "\n")
+	}
+	p := New(fmt.Sprintf("verif_c05r_%s_%s", pool, exit), settings, prometheus.NewRegistry(), zap.NewNop())
+	p.SetInput(&InputPluginInfo{PluginStaticInfo: &PluginStaticInfo{Type: "verif_in"}, PluginRuntimeInfo: &PluginRuntimeInfo{Plugin: in, ID: "verif_in"}})
+	p.SetOutput(&OutputPluginInfo{PluginStaticInfo: &PluginStaticInfo{Type: "verif_out"}, PluginRuntimeInfo: &PluginRuntimeInfo{Plugin: &c05RefOutput{}, ID: "verif_out"}})
+	p.Start()
+	defer p.Stop()
+	done := make(chan struct{})
+	go func() {
+		defer close(done)
+		for i := 0; i < n; i++ {
+			if p.In(1, "src", offs, append([]byte(nil), data...), false, nil) == EventSeqIDError {
+				res.Refused++
+			} else {
+				res.Accepted++
+			}
+		}
+	}()
+	select {
+	case <-done:
+	case <-time.After(5 * time.Second):
+		res.Blocked = true // the reader sits in the pool although nothing is in flight
+		res.InUseEnd = p.eventPool.inUse()
+		return res
+	}
+	for i := 0; i < 2000 && p.eventPool.inUse() != 0; i++ {
+		time.Sleep(time.Millisecond)
+	}
+	res.InUseEnd = p.eventPool.inUse()
+	return res
+}
+
+func TestVerifC05Refusals(t *testing.T) {
+	out := os.Getenv("VERIF_OUT")
+	if out == "" {
+		t.Skip("VERIF_OUT not set")
+	}
+	var all []c05RefRes
+	for _, pool := range []PoolType{PoolTypeStd, PoolTypeLowMem} {
+		for _, exit := range []string{"oversize", "wrong_cri", "below_stream_offset", "banned", "undecodable", "pass_event"} {
+			all = append(all, c05Refusals(pool, exit, 7)) // more than the capacity: a slot lost per refusal blocks the reader
 		}
 	}
 	b, _ := json.Marshal(all)
